@@ -16,7 +16,8 @@ from ..gen import c_sess
 
 ID = "C11"
 LEVEL = "exploration"
-RULE = ("case = error-free history of 1..8 inputs mixing fun/enum/struct/method/test definitions, top-level lets, assignments, "
+RULE = ("case = error-free history of 1..8 inputs mixing fun/enum/struct/method/test definitions (incl. methods on built-in "
+        "types and methods submitted before the enum/struct they are attached to), top-level lets, assignments, "
         "+=, printing statements and expressions; the last input is an expression, a loop, an if or a match (with printed "
         "output); 30% of the histories send all inputs but the last with the path of a (virtual) file. distinct key = (number of "
         "inputs, set of input kinds, kind of the last input, with/without path)")
@@ -41,6 +42,8 @@ class G:
         self.enum = self.struct = None
         self.method = None
         self.printing = set()
+        self.calls = []       # templates of Int-valued method calls available now: ("(%s).m(%s)", n_int_args)
+        self.scalls = []      # String -> String method names
 
     def name(self, p):
         self.k += 1
@@ -57,6 +60,9 @@ class G:
         if c < 0.7 and self.funs:
             f, ar = r.choice(self.funs)
             return "%s(%s)" % (f, ", ".join(self.int_expr(depth - 1, params) for _ in range(ar)))
+        if c < 0.75 and self.calls and not params:
+            t, k = r.choice(self.calls)
+            return t % tuple(self.int_expr(depth - 1) for _ in range(k))
         if c < 0.78 and self.lists and not params:
             return "%s.len()" % r.choice(self.lists)
         if c < 0.86:
@@ -74,6 +80,8 @@ class G:
         c = r.random()
         if c < 0.3 and self.strs:
             return r.choice(self.strs)
+        if c < 0.4 and self.scalls:
+            return '"%s".%s()' % (r.choice(["k", "hé", ""]), r.choice(self.scalls))
         if c < 0.6:
             return "string_repr(%s)" % self.int_expr(1)
         if c < 0.8:
@@ -105,6 +113,33 @@ class G:
             self.method = self.name("m")
             return "struct+method", "struct %s { a: Int }\nmethod %s(this: %s, o: Int): Int { this.a * o }" % (self.struct, self.method, self.struct)
         return self.let()
+
+    def builtin_method(self):
+        """A method on a built-in type."""
+        r = self.r
+        m = self.name("mb")
+        c = r.random()
+        if c < 0.45:
+            self.calls.append(("(%s)." + m + "(%s)", 2))
+            return "method-builtin", "method %s(this: Int, o: Int): Int { (this * 2) + o }" % m
+        if c < 0.7:
+            self.scalls.append(m)
+            return "method-builtin", 'method %s(this: String): String { this ^ "!" }' % m
+        self.calls.append(("[%s, 5]." + m + "(%s)", 2))
+        return "method-builtin", "method %s<T>(this: List<T>, o: Int): Int { this.len() + o }" % m
+
+    def early_method(self):
+        """-> (method input, type input, call template): the method is submitted before its receiver type exists."""
+        r = self.r
+        m, t = self.name("me"), self.name("L")
+        if r.random() < 0.5:
+            return (("method-before-enum", "method %s(this: %s, o: Int): Int { o + %d }" % (m, t, r.randint(0, 9))),
+                    ("enum-late", "enum %s { %s_A, %s_B(Int) }" % (t, t, t)),
+                    (r.choice(["%s_A" % t, "%s_B(3)" % t]) + "." + m + "(%s)", 1))
+        body = "this.a + o" if r.random() < 0.5 else "o * 2"
+        return (("method-before-struct", "method %s(this: %s, o: Int): Int { %s }" % (m, t, body)),
+                ("struct-late", "struct %s { a: Int }" % t),
+                (t + "{ a: %s }." + m + "(%s)", 2))
 
     def test(self):
         # tests of a request run before its top-level expressions (by design), so a printing test would reorder the
@@ -180,9 +215,24 @@ class G:
         r = self.r
         n = r.randint(1, 8)
         out = []
-        for _ in range(n - 1):
+        plan = {}
+        if n >= 4 and r.random() < 0.35:
+            i = r.randint(0, n - 4)
+            j = r.randint(i + 1, n - 3)
+            meth, typ, call = self.early_method()
+            plan = {i: (meth, None), j: (typ, call)}
+        for idx in range(n - 1):
+            if idx in plan:
+                item, call = plan[idx]
+                out.append(item)
+                if call:
+                    self.calls.append(call)
+                    self.calls.append(call)      # favour it
+                continue
             c = r.random()
-            if c < 0.3:
+            if c < 0.08:
+                out.append(self.builtin_method())
+            elif c < 0.3:
                 out.append(self.definition())
             elif c < 0.5:
                 out.append(self.let())
@@ -203,6 +253,9 @@ FIXED = [
     [("last-while", "let w0 = 0 while w0 < 2 { w0 += 1 println(string_repr(w0)) }")],
     [("let", "let q1 = 1"), ("assign", "q1 = q1 + 1"), ("last-int", "q1")],
     [("test", "test t0 { assert(1 == 1) }"), ("last-int", "2")],
+    [("method-before-enum", "method me0(this: L0, o: Int): Int { o + 1 }"), ("enum-late", "enum L0 { L0_A, L0_B(Int) }"), ("last-int", "L0_A.me0(2)")],
+    [("method-before-struct", "method ms0(this: K0, o: Int): Int { this.a + o }"), ("struct-late", "struct K0 { a: Int }"), ("last-int", "K0{ a: 1 }.ms0(2)")],
+    [("method-builtin", "method mi0(this: Int, o: Int): Int { this + o }"), ("last-int", "3.mi0(4)")],
     [("fun", "fun g1() { println(\"g1\") 3 }"), ("print", "println(\"a\")"), ("last-int", "g1() + g1()")],
 ]
 
